@@ -978,7 +978,7 @@ pub fn arb_c12() -> BoxedStrategy<StreamCase> {
             (
                 arb_style(),
                 any::<u8>(),
-                prop_oneof![3 => 1u32..200, 2 => prop::sample::select(vec![1u32, 2, 10, 1000, 60000]), 1 => 1u32..60000],
+                prop_oneof![3 => 1u32..200, 2 => prop::sample::select(vec![0u32, 1, 2, 10, 1000, 60000]), 1 => 1u32..60000],
                 prop_oneof![4 => Just(0u32), 1 => 0u32..50],
                 arb_valid_req(),
             ),
@@ -1619,7 +1619,7 @@ pub fn c03_count_sweep(ctx: &crate::runner::Ctx) -> crate::runner::SearchReport 
     use crate::runner::*;
     let mut rep = SearchReport::empty(
         "c03_count_sweep",
-        "enumeration: every read count 0..=65535 x {read coils, discrete inputs, holding, input registers} x {MBAP, RTU} with start 0 and (thorough) start 65536-count; every write-multiple count 0..=2100 and the lattice {2^k-1, 2^k, 2^k+1} up to 70000 x {coils, registers} x {MBAP, RTU}; batches of 256 requests per client session, same oracle as c03_requests. Non-trivial = request with count within 2 of its limit or of a power of two.",
+        "enumeration: every read count 0..=65535 x {read coils, discrete inputs, holding, input registers} x {MBAP, RTU} with start 0 and (thorough) start 65536-count; every write-multiple count 0..=2100 and the lattice {2^k-1, 2^k, 2^k+1} up to 70000 x {coils, registers} x {MBAP, RTU}; all three submission paths (Channel future, CallbackSession, FfiChannel) for the writes and for read counts near the limits and powers of two, in rotation elsewhere; batches of 256 requests per client session, same oracle as c03_requests. Non-trivial = request with count within 2 of its limit or of a power of two.",
     );
     let mut batches: Vec<C03Case> = Vec::new();
     let thorough = ctx.tier == Tier::Thorough;
@@ -1632,8 +1632,17 @@ pub fn c03_count_sweep(ctx: &crate::runner::Ctx) -> crate::runner::SearchReport 
                     starts.push((65536 - count) as u16);
                 }
                 for start in starts {
+                  // every submission path has its own argument checks: all three near the limits
+                  // and powers of two, in rotation elsewhere
+                  let near = |c: u32| [0u32, 125, 2000, 255, 256, 65535].iter().any(|l| c + 3 >= *l && c <= *l + 3) || (c & (c.wrapping_sub(1))) == 0;
+                  let styles: Vec<Style> = if near(count) {
+                      vec![Style::Future, Style::Callback, Style::Ffi]
+                  } else {
+                      vec![[Style::Future, Style::Callback, Style::Ffi][(count % 3) as usize]]
+                  };
+                  for style in styles {
                     cur.push((
-                        Style::Future,
+                        style,
                         (count % 251) as u8,
                         ReqSpec::Read {
                             kind,
@@ -1649,6 +1658,7 @@ pub fn c03_count_sweep(ctx: &crate::runner::Ctx) -> crate::runner::SearchReport 
                             select_seed: 1,
                         });
                     }
+                  }
                 }
             }
             if !cur.is_empty() {
@@ -1685,7 +1695,8 @@ pub fn c03_count_sweep(ctx: &crate::runner::Ctx) -> crate::runner::SearchReport 
                         values: (0..n).map(|i| i as u16).collect(),
                     }
                 };
-                cur.push((Style::Future, 1u8, req));
+              for style in [Style::Future, Style::Callback, Style::Ffi] {
+                cur.push((style, 1u8, req.clone()));
                 if cur.len() == 64 {
                     batches.push(C03Case {
                         framing: fr,
@@ -1694,6 +1705,7 @@ pub fn c03_count_sweep(ctx: &crate::runner::Ctx) -> crate::runner::SearchReport 
                         select_seed: 1,
                     });
                 }
+              }
             }
             if !cur.is_empty() {
                 batches.push(C03Case {
@@ -1783,4 +1795,165 @@ pub fn c03_count_sweep(ctx: &crate::runner::Ctx) -> crate::runner::SearchReport 
 pub fn c03_count_sweep_replay(v: &serde_json::Value) -> CaseResult {
     let c: C03Case = serde_json::from_value(v.clone()).map_err(|e| e.to_string())?;
     check_c03(&c)
+}
+
+// ---------------------------------------------------------------------------------------------
+// C12: the consecutive-timeout count belongs to a connection
+
+/// A channel with limit N: k < N timeouts on the first connection, then that connection ends for
+/// another reason (peer closes, read error, garbage, disable + enable), the channel reconnects,
+/// and the peer stays silent again. The new connection must be dropped after exactly N timeouts.
+#[derive(Clone, Debug, PartialEq, Eq, Hash, Serialize, Deserialize)]
+pub struct C12Conn {
+    pub framing: Fr,
+    pub n: u16,
+    pub k: u16,
+    /// 0 = peer closes, 1 = read error, 2 = garbage, 3 = disable then enable
+    pub how: u8,
+    pub timeout_ms: u32,
+    pub select_seed: u64,
+}
+
+pub fn arb_c12_conn() -> BoxedStrategy<C12Conn> {
+    (arb_fr(), 2u16..=5, any::<u16>(), 0u8..4, prop::sample::select(vec![1u32, 7, 30]), any::<u64>())
+        .prop_map(|(framing, n, k, how, timeout_ms, select_seed)| C12Conn {
+            framing,
+            n,
+            k: 1 + k % (n - 1),
+            how,
+            timeout_ms,
+            select_seed,
+        })
+        .boxed()
+}
+
+pub fn check_c12_conn(case: &C12Conn) -> CaseResult {
+    let mut ops = Vec::new();
+    let mut id = 0usize;
+    let mut submit = |ops: &mut Vec<COp>| {
+        ops.push(COp::Submit {
+            id,
+            style: Style::Future,
+            handle: 0,
+            unit: 1,
+            timeout_ms: case.timeout_ms,
+            req: ReqSpec::Read {
+                kind: Kind::ReadHolding,
+                start: id as u16,
+                count: 1,
+            },
+        });
+        ops.push(COp::Advance(case.timeout_ms + 1));
+        id += 1;
+    };
+    for _ in 0..case.k {
+        submit(&mut ops);
+    }
+    match case.how {
+        0 => ops.push(COp::PeerEof),
+        1 => ops.push(COp::PeerErr(IoKind::ALL[(case.select_seed % IoKind::ALL.len() as u64) as usize])),
+        2 => ops.push(COp::PeerBytes(match case.framing {
+            // a header with a foreign protocol id / a frame of an unknown function
+            Fr::Mbap => vec![0, 1, 0x12, 0x34, 0, 2, 1, 3],
+            Fr::Rtu => vec![1, 0x6B, 0, 0],
+        })),
+        _ => {
+            ops.push(COp::Disable(0));
+            ops.push(COp::Advance(1));
+            ops.push(COp::Enable(0));
+        }
+    }
+    // the reconnect delay is 5 ms
+    ops.push(COp::Advance(8));
+    let first_after = case.k as usize;
+    for _ in 0..case.n + 1 {
+        submit(&mut ops);
+    }
+    let run = run_client(&CliCase {
+        cfg: CliConfig {
+            framing: case.framing,
+            decode: Decode::NOTHING,
+            max_timeouts: Some(case.n),
+            queue: 16,
+            retry_ms: 5,
+        },
+        conns: vec![
+            ConnPlan {
+                peer: PeerPlan::default(),
+                fail_write_at: None,
+                write_stall: None,
+                unsolicited: vec![],
+            },
+            ConnPlan {
+                peer: PeerPlan::default(),
+                fail_write_at: None,
+                write_stall: None,
+                unsolicited: vec![],
+            },
+        ],
+        ops,
+        select_seed: case.select_seed,
+        pre_enable: true,
+    });
+    let mut ok = CaseOk::new();
+    ok.label(match case.how {
+        0 => "first_connection_ends_by:peer_close",
+        1 => "first_connection_ends_by:read_error",
+        2 => "first_connection_ends_by:garbage",
+        _ => "first_connection_ends_by:disable_enable",
+    });
+    let ends: Vec<(usize, String)> = run
+        .events
+        .iter()
+        .filter_map(|(_, e)| match e {
+            LoopEvent::SessionEnd(k, why) => Some((*k, why.clone())),
+            _ => None,
+        })
+        .collect();
+    let describe = format!(
+        "limit {} with {} timeouts on the first connection, which then ends by {}; session ends {:?}",
+        case.n,
+        case.k,
+        match case.how {
+            0 => "the peer closing it",
+            1 => "a read error",
+            2 => "garbage",
+            _ => "disable + enable",
+        },
+        ends
+    );
+    // the first connection must not have been dropped by the counter
+    match ends.first() {
+        Some((0, why)) if !why.starts_with("MaxTimeouts") => {}
+        other => return Err(format!("{}: the first connection ended with {:?}", describe, other)),
+    }
+    let res = |i: usize| run.ledger.completions.iter().find(|c| c.id == i).map(|c| c.res.clone());
+    for i in 0..case.k as usize {
+        if !matches!(res(i), Some(Res::ResponseTimeout)) {
+            return Err(format!("{}: request {} on the first connection completed with {:?}", describe, i, res(i)));
+        }
+    }
+    // on the second connection: exactly N timeouts, then the connection is dropped
+    for j in 0..case.n as usize {
+        let r = res(first_after + j);
+        if !matches!(r, Some(Res::ResponseTimeout)) {
+            return Err(format!(
+                "{}: request no. {} on the second connection completed with {:?}; the connection has to last for {} timeouts in a row",
+                describe,
+                j + 1,
+                r,
+                case.n
+            ));
+        }
+    }
+    match ends.get(1) {
+        Some((1, why)) if why.starts_with("MaxTimeouts") => {}
+        other => return Err(format!("{}: the second connection ended with {:?} instead of the timeout limit", describe, other)),
+    }
+    let last = res(first_after + case.n as usize);
+    if !matches!(last, Some(Res::NoConnection)) {
+        return Err(format!("{}: the request after the limit was reached completed with {:?}", describe, last));
+    }
+    ok.nontrivial = true;
+    Ok(ok)
 }
